@@ -50,6 +50,34 @@ def exec_search(r):
     return [ev]
 
 
+def exec_pair(r):
+    """one DNARegex instance and one target OBJECT searched twice (linear, then circular, or the reverse)"""
+    loader.load()
+    from Bio.Seq import Seq
+    from Bio.SeqRecord import SeqRecord
+    from moclo.regex import DNARegex
+    target = Seq(r["target"]) if r["kind"] == "Seq" else SeqRecord(Seq(r["target"]), id="t")
+    rx = DNARegex(r["pattern"])
+    evs = []
+    for linear in r["order"]:
+        ev = {"ev": "Search", "toks": dna.tokens(r["pattern"]), "seq": dna.enc(r["target"]), "circ": not linear, "pos": 0, "endpos": BIG}
+        try:
+            m = rx.search(target, linear=linear)
+            if m is None:
+                ev["res"] = {"ok": False, "s": 0, "e": 0, "spans": [], "groups": []}
+            else:
+                g = m.match.re.groups
+                groups = []
+                for i in range(g + 1):
+                    x = m.group(i)
+                    groups.append(dna.enc(x.seq if hasattr(x, "seq") else x))
+                ev["res"] = {"ok": True, "s": m.start(), "e": m.end(), "spans": [list(m.span(i)) for i in range(g + 1)], "groups": groups}
+        except Exception as ex:  # noqa
+            ev["res"] = {"ok": False, "exc": type(ex).__name__, "s": 0, "e": 0, "spans": [], "groups": []}
+        evs.append(ev)
+    return evs
+
+
 def exec_letter(r):
     loader.load()
     from Bio.Seq import Seq
@@ -59,7 +87,7 @@ def exec_letter(r):
     return [{"ev": "Letter", "p": dna.CODE[p], "x": dna.enc(x)[0], "res": res}]
 
 
-EXEC = {"search": exec_search, "letter": exec_letter}
+EXEC = {"search": exec_search, "letter": exec_letter, "pair": exec_pair}
 
 
 def patterns(max_items, rng, per_shape):
@@ -134,13 +162,20 @@ def run(tier, seed):
                 t = w[-k:] + w[:-k] if k else w
                 recipes.append({"fn": "search", "pattern": s, "target": t, "kind": "CircularRecord", "linear": None,
                                 "pos": None, "endpos": None})
+    # the same pattern object and the same target object asked twice, as a line and as a circle
+    for s_ in structs[:3]:
+        for _ in range(6 if q else 40):
+            inst = instantiate(s_, rng) + "".join(rng.choice("ACGT") for _ in range(rng.randint(0, 8)))
+            k = rng.randrange(1, len(inst))
+            recipes.append({"fn": "pair", "pattern": s_, "target": inst[-k:] + inst[:-k], "kind": rng.choice(["Seq", "SeqRecord"]),
+                            "order": rng.choice([[True, False], [False, True], [True, False, True]])})
     traces = [EXEC[r["fn"]](r) for r in recipes]
     for r, t in zip(recipes, traces):
         ev = t[0]
         if ev["ev"] == "Search":
             res = ev["res"]
             if res["ok"] and res["e"] > len(ev["seq"]):
-                run.distinct.add((r["pattern"], r["target"], r["kind"], r["linear"], r["pos"], r["endpos"]))
+                run.distinct.add((r["pattern"], r["target"], r["kind"], str(r.get("linear", r.get("order"))), r.get("pos"), r.get("endpos")))
     run.extra["searches_wrapping_the_origin"] = len(run.distinct)
     run.add_sample({"recipe": recipes[len(recipes) // 2], "event": traces[len(recipes) // 2][0]})
     run.add_sample({"recipe": recipes[-1], "event": traces[-1][0]})
